@@ -336,6 +336,102 @@ func init() {
 		}
 		rangeLen := zbody(lenFn.Body.List)
 
+
+		// ---------------------------------------------------------------- scope.interpretOps: the guards of the mixed-precedence branch
+		// (follow-up 2) AspTables pins the whole body textually; here the if / else-if chain between the two leading fast paths and
+		// the final evaluation of the right operand is TRANSLATED into a list of guards, in source order, which Model/C16_Effects.v
+		// interprets (flat_ops_g). Dropping the short-circuit guard, or testing it after the unary guard, changes the list and the
+		// proofs of Proof/C16_Effects.v (flat_ops_g over the generated list IS flat_ops; a deciding left operand evaluates nothing).
+		fsI, fi := parseFile("src/parse/asp/interpreter.go")
+		norm := func(x string) string { return strings.TrimSpace(ws.ReplaceAllString(x, " ")) }
+		iops := findFunc(fi, "scope", "interpretOps")
+		if iops == nil || iops.Body == nil || len(iops.Body.List) < 4 {
+			failShape("scope.interpretOps not found or too short")
+		}
+		ib := iops.Body.List
+		matchShape("scope.interpretOps (the two leading cases)", stmtText(fsI, ib[0], ib[1]),
+			`{ if len(ops) == 1 { return s.interpretOp(obj, ops[0]) }
+			   if ops[0].Op.Precedence() >= ops[1].Op.Precedence() { return s.interpretOps(s.interpretOp(obj, ops[0]), ops[1:]) } }`)
+		matchShape("scope.interpretOps (evaluation of the right operand)", stmtText(fsI, ib[len(ib)-2:]...),
+			`{ nobj := s.interpretOps(s.interpretExpression(ops[0].Expr), ops[1:])
+			   return s.interpretOp(obj, OpExpression{ Op: ops[0].Op, Expr: &Expression{optimised: &optimisedExpression{Constant: nobj}}, }) }`)
+		guards := []string{}
+		var guard func(is *ast.IfStmt)
+		guard = func(is *ast.IfStmt) {
+			if is.Init != nil {
+				failShape("scope.interpretOps: a guard with an init statement")
+			}
+			txt := norm(stmtText(fsI, &ast.IfStmt{Cond: is.Cond, Body: is.Body}))
+			switch txt {
+			case norm(`{ if ops[0].Op.Lazy() && obj.IsTruthy() != (ops[0].Op == And) { return obj } }`):
+				guards = append(guards, "GShortCircuit")
+			case norm(`{ if ops[0].Expr == nil { return s.interpretOp(s.interpretOps(obj, ops[1:]), ops[0]) } }`):
+				guards = append(guards, "GUnary")
+			default:
+				failShape("scope.interpretOps: unrecognised guard %s", txt)
+			}
+			switch e := is.Else.(type) {
+			case nil:
+			case *ast.IfStmt:
+				guard(e)
+			default:
+				failShape("scope.interpretOps: a guard chain ends in a plain else")
+			}
+		}
+		for _, st := range ib[2 : len(ib)-2] {
+			is, ok := st.(*ast.IfStmt)
+			if !ok {
+				failShape("scope.interpretOps: unrecognised statement %s", stmtText(fsI, st))
+			}
+			guard(is)
+		}
+
+		// ---------------------------------------------------------------- the scope a comprehension's variables are bound in
+		// interpretJoin (the optimised 'lit'.join([... for ...])) and interpretList: `cs := s.NewScope(s.filename, s.mode)` is a
+		// child scope (JChild), `cs := s` the enclosing scope itself (JSame); the iterable is evaluated in s, the loop variables are
+		// bound and the element expression evaluated in cs
+		compScope := func(fn string, uses ...string) string {
+			fd := findFunc(fi, "scope", fn)
+			if fd == nil || fd.Body == nil {
+				failShape("scope.%s not found", fn)
+			}
+			res := ""
+			for _, st := range fd.Body.List {
+				as, ok := st.(*ast.AssignStmt)
+				if !ok || len(as.Lhs) != 1 || len(as.Rhs) != 1 || types.ExprString(as.Lhs[0]) != "cs" {
+					continue
+				}
+				if res != "" || as.Tok != token.DEFINE {
+					failShape("scope.%s: cs is assigned more than once", fn)
+				}
+				switch types.ExprString(as.Rhs[0]) {
+				case "s.NewScope(s.filename, s.mode)":
+					res = "JChild"
+				case "s":
+					res = "JSame"
+				default:
+					failShape("scope.%s: cs := %s is neither a child scope nor the enclosing scope", fn, types.ExprString(as.Rhs[0]))
+				}
+			}
+			if res == "" {
+				failShape("scope.%s: no `cs := ...` at the top level of the body", fn)
+			}
+			body := bodyText(fsI, fd)
+			for _, u := range uses {
+				if !strings.Contains(body, norm(u)) {
+					failShape("scope.%s: `%s` not found", fn, u)
+				}
+			}
+			if strings.Contains(body, "s.evaluateComprehension(") && !strings.Contains(body, "cs.evaluateComprehension(") {
+				failShape("scope.%s: the comprehension is evaluated in s", fn)
+			}
+			return res
+		}
+		joinScope := compScope("interpretJoin", "it := s.iterable(list.Comprehension.Expr)", "cs.evaluateComprehension(it, list.Comprehension, func(li pyObject) {",
+			"x := cs.interpretExpression(list.Values[0])")
+		listScope := compScope("interpretList", "it, l := s.iterableLen(expr.Comprehension.Expr)", "cs.evaluateComprehension(it, expr.Comprehension, func(li pyObject) {",
+			"ret = append(ret, cs.interpretExpression(expr.Values[0]))")
+
 		return "From Coq Require Import List String ZArith. Import ListNotations.\n" +
 			"(* pyRange.Len (objects.go): Go int arithmetic over Z; wrap = reduction to a signed 64-bit int *)\n" +
 			"Definition pyrange_len (wrap : Z -> Z) (start stop step : Z) : Z := " + rangeLen + ".\n" +
@@ -357,6 +453,16 @@ func init() {
 			"(* `if reverse { slices.Reverse(l) }` between the sort and the return *)\n" +
 			"Definition sorted_post_reverse : bool := " + postReverse + ".\n" +
 			"(* l = slices.Clone(l) before the sort: the caller's list is not written *)\n" +
-			"Definition sorted_clones : bool := true.\n"
+			"Definition sorted_clones : bool := true.\n" +
+			"(* scope.interpretOps (interpreter.go), the branch taken when the NEXT operator binds tighter: the guards tested, in source\n" +
+			"   order, before the right operand and the rest of the chain are evaluated *)\n" +
+			"Inductive opsguard :=\n" +
+			"| GShortCircuit   (* if ops[0].Op.Lazy() && obj.IsTruthy() != (ops[0].Op == And) { return obj } *)\n" +
+			"| GUnary.         (* if ops[0].Expr == nil { return s.interpretOp(s.interpretOps(obj, ops[1:]), ops[0]) } *)\n" +
+			"Definition interpret_ops_guards : list opsguard := [" + strings.Join(guards, "; ") + "].\n" +
+			"(* the scope the loop variables of a comprehension are bound in: cs := s.NewScope(..) (JChild) or cs := s (JSame) *)\n" +
+			"Inductive compscope := JChild | JSame.\n" +
+			"Definition join_comp_scope : compscope := " + joinScope + ".   (* scope.interpretJoin: 'lit'.join([e for x in l]) *)\n" +
+			"Definition list_comp_scope : compscope := " + listScope + ".   (* scope.interpretList: [e for x in l] *)\n"
 	}
 }
